@@ -466,7 +466,3 @@ Definition mm_obs_eqb (a b : mm_obs) : bool :=
   | _, _ => false
   end.
 
-(* correspondence term: both cores must reproduce the implementation's observation *)
-Definition check_case (ta : tree_arrays) (genotypes : list Z) (anc : anc_arg) (nal : Z) (o : mm_obs) : bool :=
-  mm_obs_eqb (py_map_mutations c_map_mutations ta genotypes anc nal) o &&
-  mm_obs_eqb (py_map_mutations c_map_mutations_rose ta genotypes anc nal) o.
